@@ -169,6 +169,9 @@ inductive Instr where
   | catch_ (all : Bool)       -- `except Thrown` / bare `except` (also GeneratorExit, runtime errors)
   | endcatch
   | resume (j : Nat) (inp : Inp)   -- drive another generator from inside the body
+  -- `wenter` / `wexit` place the `__enter__` / `__exit__` calls where a `with` statement places them for falling out of the block
+  -- and for an exception leaving it; a `ret` or a stray `exit` inside the block behaves as with manual calls (the body interpreter
+  -- of the harness, `harness/props/C15.py: body`, has exactly this semantics - it is what "arbitrary generator body" means here)
   | wenter (a : Nat)          -- `with start_action(...) as a:` - the start of the block
   | wexit                     -- the end of that block: `a.__exit__(None, None, None)` when control falls out of it,
                               -- `a.__exit__(type(e), e, tb)` when an exception (GeneratorExit of `close()` too) leaves it
